@@ -81,6 +81,12 @@ claim('C08', 'polynomial-exact differencing monitor on Panel/PanelAssembly calc_
       'directions, kT symmetric, kT(0)=K0, zero work around random closed polygons (exact Gauss per edge), consistency of the discretised pair at reduced Gauss orders, and that the assembly adds k0_conn*c.',
       'fint is a cubic polynomial of the amplitudes (verified per case by comparing stencils at h and h/2)', '4/C08')
 
+claim('C07', 'recording post-conditions on sparse.solve / analysis.static (all bindings, so Panel.static is observed) judged by residuals; calc_fext of panels, assemblies and bays judged by virtual work through the displacement kernel (a different kernel from the load-vector kernel)',
+      'For generated force sets (interior/edge/corner, constant and incrementable, load factors in [0,2]) the product fext.c is compared for several random c with sum f.(u,v,w) taken from the package\'s own uvw / uvw_skin / '
+      'uvw_stiffener at the force points, for single panels of all four models (with placement), assemblies of unequal panels in shuffled order and bays with forces on skin, base and flange; inc-linearity and fext(0)=constant part by '
+      'further executions; every observed solve call is judged by backward error on active amplitudes and zeros on null ones; linear dependence on the loads.',
+      'Panel.uvw kernels (judged by C11); static clauses apply to non-singular K (restrained panels / SPD random systems)', '4/C07')
+
 ALL = ['C%02d' % i for i in range(1, 21)]
 PENDING_REASON = 'check not built yet in this round (runtime-monitoring plan in DESIGN.md section 4); will be claimed once its monitor runs silent on the unchanged tree'
 
